@@ -9,6 +9,7 @@ package main
 // bare light node; the stateful ActivateProducer paths are driven in apconfirm.go.)
 
 import (
+	"bytes"
 	"fmt"
 	"math"
 	"math/big"
@@ -19,7 +20,23 @@ import (
 	"github.com/elastos/Elastos.ELA/common"
 	"github.com/elastos/Elastos.ELA/core"
 	common2 "github.com/elastos/Elastos.ELA/core/types/common"
+	"github.com/elastos/Elastos.ELA/core/types/payload"
+	"github.com/elastos/Elastos.ELA/crypto"
+
+	"verif/evid"
+	"verif/lightnode"
 )
+
+// noCostTypes: the types whose SpecialContextCheck returns (nil, true) on success without any
+// amount comparison (found by scanning core/transaction for "return nil, true"): for them the
+// input-less form is only kept from minting by the sanity-level input/output checks.
+// (CRCAppropriation compares amounts itself; coinbase is outside the statement.)
+var noCostTypes = map[common2.TxType]bool{
+	common2.IllegalProposalEvidence: true, common2.IllegalVoteEvidence: true, common2.IllegalBlockEvidence: true,
+	common2.IllegalSidechainEvidence: true, common2.InactiveArbitrators: true, common2.NextTurnDPOSInfo: true,
+	common2.NFTDestroyFromSideChain: true, common2.RecordSponsor: true, common2.RevertToDPOS: true,
+	common2.RevertToPOW: true, common2.UpdateVersion: true, common2.ProposalResult: true, common2.SideChainPow: true,
+}
 
 type gate struct {
 	Name string
@@ -91,8 +108,27 @@ func (f *fixture) runGates(res *workerOut, addViol func(sig, what string, c case
 	// outputs (value-conserving with the 1000 input and not)
 	outLists := [][]int64{{}, {900}, {1000}, {5000}, {1, 1 << 62}, {900, 100}, {1000, 0},
 		{-1}, {1090, -90}, {-90, 1090}, {1000, -80}, {-80, 1000}, {0, -1},
-		{500, -90, 590}, {-90, 500, 590}, {500, 590, -90}, {1000, -1, 1}}
+		{500, -90, 590}, {-90, 500, 590}, {500, 590, -90}, {1000, -1, 1},
+		// a zero output followed by positive ones (shapes of the "no cost" types)
+		{0}, {0, 500000000}, {0, 0, 1}, {0, 500000000, 7}}
 	classes := map[string]int{}
+	// SideChainPow's acceptable state: the on-duty cross-chain arbiter is a harness key that
+	// signs the payload
+	duty := lightnode.FixedKey("c01-onduty-arbiter", 0)
+	if err := f.node.SetArbiters([][]byte{duty.Compressed}); err != nil {
+		evid.Fatalf("arbiters: %v", err)
+	}
+	scp := &payload.SideChainPow{BlockHeight: 7}
+	scp.SideBlockHash[0], scp.SideGenesisHash[0] = 0x51, 0x52
+	{
+		buf := new(bytes.Buffer)
+		scp.Serialize(buf, payload.SideChainPowVersion)
+		sig, err := crypto.Sign(duty.Priv, buf.Bytes()[0:68])
+		if err != nil {
+			evid.Fatalf("sign: %v", err)
+		}
+		scp.Signature = sig
+	}
 	for _, t := range allTypes() {
 		for _, h := range heights {
 			for _, inVals := range inShapes {
@@ -109,6 +145,9 @@ func (f *fixture) runGates(res *workerOut, addViol func(sig, what string, c case
 				for _, outVals := range outLists {
 					tx := f.mkTx(t.T, f.outputs(t.T, outVals), ins, h)
 					tx.SetReferences(refs)
+					if t.T == common2.SideChainPow {
+						tx.SetPayload(scp)
+					}
 					if t.T == common2.CRCAppropriation {
 						// the state in which this type is acceptable: an appropriation is due,
 						// of the amount the first output carries, spent from the CR assets address
@@ -144,6 +183,14 @@ func (f *fixture) runGates(res *workerOut, addViol func(sig, what string, c case
 						}
 					}()
 					res.GateEvals++
+					if noCostTypes[t.T] && len(inVals) == 0 && pan == "" && inOK && outOK {
+						om := mkSet(outVals)
+						if om.HasNeg || om.Sum.Sign() > 0 {
+							addViol("C01|value-created|no-cost-type-admits-outputs|"+t.Name,
+								fmt.Sprintf("%s at height %d (%s) without inputs and with outputs %v passes CheckTransactionInput and CheckTransactionOutput; this type's SpecialContextCheck ends validation without comparing amounts, so nothing else would refuse it", t.Name, h, hs[h], outVals),
+								caseA{Type: int(t.T), Name: t.Name, H: h, Outputs: outVals, Inputs: inVals, Shape: "gate"})
+						}
+					}
 					if pan != "" {
 						res.GatePanics++
 						continue
